@@ -445,7 +445,10 @@ func (c *Ctx) typeID(t types.Type) int {
 func (c *Ctx) preamble() string { return c.preambleOpt(true) }
 
 // preambleQF: declarations plus the quantifier-free axioms only.
-func (c *Ctx) preambleQF() string {
+func (c *Ctx) preambleQF() string { return c.preambleQFFor(nil) }
+
+// preambleQFFor leaves out the ground axioms (unfoldings of recursive specs at program terms) that vis rejects.
+func (c *Ctx) preambleQFFor(vis func(string) bool) string {
 	s := c.preambleOpt(false)
 	for def, alt := range c.qfAlt {
 		s = strings.Replace(s, def, alt, 1)
@@ -453,7 +456,7 @@ func (c *Ctx) preambleQF() string {
 	var sb strings.Builder
 	sb.WriteString(s)
 	for _, a := range c.axioms {
-		if !hasQuant(a) {
+		if !hasQuant(a) && (vis == nil || vis(a)) {
 			sb.WriteString("(assert " + a + ")\n")
 		}
 	}
